@@ -545,7 +545,19 @@ VARIANTS = {
           (OPT, '        for idvar, var in enumerate(self.problem.variables):\n'
                 '            var.update(result.x[idvar])\n'
                 '        self.problem.update_optics()\n\n        return result\n\n'
-                '    def undo', '        return result\n\n    def undo')),
+                '    def _keep_start_if_better',
+           '        return result\n\n    def _keep_start_if_better')),
+        M('start-not-compared',
+          (OPT, "                                       options=options,\n"
+                "                                       tol=tol)\n\n"
+                "        # scipy does not guarantee a descent: never hand back a "
+                "lens that is\n        # worse than the one the run started "
+                "from\n        self._keep_start_if_better(result, x0)\n",
+           "                                       options=options,\n"
+           "                                       tol=tol)\n")),
+        M('start-compare-inverted',
+          (OPT, '        if not self._fun(result.x) <= f0:',
+           '        if self._fun(result.x) <= f0:')),
         M('undo-no-update-optics',
           (OPT, '            self._x.pop(-1)\n            self.problem.update_optics()',
            '            self._x.pop(-1)')),
